@@ -35,6 +35,7 @@ StepOK(e, o) ==
   CASE e.a = "Subscribe"  -> /\ conn = NoConn /\ e.c \in Conns /\ e.S \subseteq Markets
                              /\ e.off \in KeyOffs /\ o = <<>>
     [] e.a = "Message"    -> /\ conn # NoConn /\ e.c = conn /\ e.m \in Markets
+                             /\ \A i \in DOMAIN e.fs : e.fs[i].s \in SidesOf(conn)
                              /\ OutOK(conn, subs, e.m, e.fs, o)
     [] e.a = "Disconnect" -> conn # NoConn /\ e.c = conn /\ o = <<>>
     [] OTHER              -> FALSE
